@@ -572,10 +572,13 @@ func runC06Blk(h *H) {
 				deep = true
 			}
 			for _, c := range blk.col {
-				// harness/cols.go dumps the 512-byte generated column in the layout of ColFixedStr, the model has it as a
-				// 512-byte scalar (C18 leaves it out of its pool for the same reason): not compared
-				if strings.Contains(c.typ, "FixedString(512)") {
-					deep = true
+				// harness/cols.go dumps the generated columns wider than 32 bytes (ColFixedStr64 .. 512) in the layout of
+				// ColFixedStr, the model has them as N-byte scalars (C18 leaves them out of its pool for the same reason): not
+				// compared (the direct oracle still judges the case)
+				for _, wide := range []string{"FixedString(64)", "FixedString(128)", "FixedString(256)", "FixedString(512)"} {
+					if strings.Contains(c.typ, wide) {
+						deep = true
+					}
 				}
 			}
 			wire := blk.bytes()
